@@ -424,6 +424,10 @@ def run(ck: Check, prog: Program) -> None:
         ck.ob('ERROR-CLASS', f'{r_.cls.name}: method failures are mapped to the protocol error classes the client raises', not bad)
         for rule, construct, line, msg in bad:
             ck.finding('ERROR-CLASS', r_.handle_rpc_method.qualname, construct, r_.dispatch.module.rel, line, msg)
+    # (d') "an exception … with the same code, message and data the function raised": the error members are read back with UNSET as the
+    #      absent marker — `data: null` is data, not the absence of data
+    from . import c06 as _c06x
+    _c06x._presence_by_identity(ck, _c06x.model_program(prog))
     # (e) the function is actually run, once: the bound method is invoked exactly once and, on the async side, what it returned is
     #     awaited whenever it is awaitable (decided on the returned object)
     from .dfacts import method_call_facts
@@ -436,8 +440,8 @@ def run(ck: Check, prog: Program) -> None:
     for r_ in _roles:
         ck.functions.add(r_.dispatch.qualname)
         _, bp = batch_facts(dprog, r_)
-        bad = [p_ for p_ in bp if p_[0] == 'ORDER-MAP']
-        ck.ob('ORDER-MAP', f'{r_.cls.name}.dispatch: element responses are collected in request order', not bad)
+        bad = [p_ for p_ in bp if p_[0] in ('ORDER-MAP', 'PER-ELEMENT-ONCE')]
+        ck.ob('ORDER-MAP', f'{r_.cls.name}.dispatch: every element of a batch is handled once and the responses are collected in request order', not bad)
         for rule, construct, line, msg in bad:
             ck.finding('ORDER-MAP', r_.dispatch.qualname, construct, r_.dispatch.module.rel, line, msg)
     # ---- IS-NOTIF-DEF ----------------------------------------------------------------------------------
